@@ -65,6 +65,23 @@ def read_tx_legacy(raw):
     return {"version": version, "ins": ins, "outs": outs, "locktime": locktime}
 
 
+def write_tx_legacy(tx):
+    out = struct.pack("<I", tx["version"]) + compact_size(len(tx["ins"]))
+    for i in tx["ins"]:
+        out += i["prev"] + struct.pack("<I", i["index"]) + compact_size(len(i["script_sig"])) + i["script_sig"]
+        out += struct.pack("<I", i["sequence"])
+    out += compact_size(len(tx["outs"]))
+    for o in tx["outs"]:
+        out += struct.pack("<Q", o["amount"]) + compact_size(len(o["spk"])) + o["spk"]
+    return out + struct.pack("<I", tx["locktime"])
+
+
+def set_tx(p, tx):
+    """replace the unsigned transaction of a parsed PSBT"""
+    p["global"] = [(k, write_tx_legacy(tx) if k == b"\x00" else v) for k, v in p["global"]]
+    p["tx"] = tx
+
+
 def parse(b):
     """returns {"global": kvs, "inputs": [kvs], "outputs": [kvs], "tx": dict}"""
     if b[:5] != MAGIC:
